@@ -159,7 +159,7 @@ def iterative(rep):
     for a in adds:
         x = norm(a.args[0])
         sibs = _siblings(pm, a)
-        assigned = [s for s in sibs if pmatch(f"{MAP}[{x}] = len({CL})", s) is not None]
+        assigned = [s for s in sibs if (mi_ := pmatch(f"{MAP}[{x}] = $$idx", s)) is not None and _is_current_index(s.value, CL, d, ol)]
         rep.ob("O13.2", "R6b", fi, len(assigned) == 1, f"visited.add({x})", f"marking item {x} as classified is paired with assigning it the current class index", node=a)
         grow = [s for s in sibs if member_set and pmatch(f"{member_set}.add({x})", s) is not None]
         if x != i:
@@ -186,6 +186,18 @@ def iterative(rep):
     iso = [leaf for x in d.get(iso_flag or "", []) if x.kind == "assign" for leaf in if_leaves(x.value)]
     ok = bool(iso) and all(isinstance(x, ast.Call) and [norm(a) for a in x.args[:2]] == [ri, rj] for x in iso)
     rep.ob("O13.2", "R6b", fi, ok, [alpha(x, fi.node)[:50] for x in iso], "the comparison is between the representative and the candidate item themselves")
+
+
+def _is_current_index(v, CL, d, ol):
+    """`len(clusters)`, or a local bound once - directly in the outer loop's body, before the class is appended - to len(clusters)"""
+    if pmatch(f"len({CL})", v) is not None:
+        return True
+    if isinstance(v, ast.Name):
+        ds = d.get(v.id, [])
+        if len(ds) == 1 and ds[0].kind == "assign" and pmatch(f"len({CL})", ds[0].value) is not None and any(ds[0].stmt is st for st in ol.body):
+            apps = [c for c in walk_local(ol) if isinstance(c, ast.Call) and norm(c.func) == f"{CL}.append"]
+            return all(ds[0].stmt.lineno < c.lineno for c in apps)
+    return False
 
 
 def _siblings(pm, call):
